@@ -4,8 +4,57 @@ open Lean Drv Route C06 C20 Drv.EvalCase
 
 namespace Drv.C20
 
+/-- multi-task candidate (pickup then delivery): no model of the sequential search; the quote is compared with the realised
+    change per additive layer, and the reported fitness with the SPEC value of the tours before and after -/
+def handleMulti (j : Json) : R (List (String × Json)) := do
+  let c ← parseCtx j
+  let impl ← fld j "impl"
+  let rows ← arrF impl "rows"
+  let valsJ := fldD j "values" Json.null
+  let hasVals := !valsJ.isNull
+  let tourVals ← if hasVals then listF asInt valsJ "tour" else pure []
+  let jobVal ← if hasVals then intF valsJ "job" else pure 0
+  let vq (l : List Int) (x : Int) : List Int := if hasVals then l ++ [x] else l
+  let mut exactUnassigned := true
+  let mut exactTours := true
+  let mut exactDistance := true
+  let mut exactCostNoWait := true
+  let mut exactValue := true
+  let mut fitnessIsFunctionOfTours := true
+  let mut valueRows := 0
+  for r in rows do
+    if r.isNull then continue
+    let cost ← listF asInt r "cost"
+    let before ← listF asInt r "before"
+    let after ← listF asInt r "after"
+    let res ← parseImplRes (Json.mkObj [("acts", ← fld r "acts"), ("cost", ← fld r "cost")])
+    let acts := match res with | some (a, _) => a | none => []
+    -- the tour with the job's activities inserted one after another (indices refer to the shadow tour)
+    let newJobs := acts.foldl (fun (st : List Act) (a : ImplAct) =>
+      insertAt st a.idx { loc := a.loc, s := a.tw.1, e := a.tw.2, dur := a.dur }) c.acts
+    let delta (k : Nat) : Int := after.getD k 0 - before.getD k 0
+    if delta 0 != cost.getD 0 0 then exactUnassigned := false
+    if delta 1 != cost.getD 1 0 then exactTours := false
+    if before != vq (fitnessOf c c.acts 1) (valueFitness tourVals) ||
+       after != vq (fitnessOf c newJobs 0) (valueFitness (tourVals ++ [jobVal])) then fitnessIsFunctionOfTours := false
+    if hasVals then
+      valueRows := valueRows + 1
+      if cost.length != 4 || delta 3 != cost.getD 3 0 then exactValue := false
+    match c.obj with
+    | .distance => if delta 2 != cost.getD 2 0 then exactDistance := false
+    | .cost =>
+      if !hasWaiting c.m.t c.veh c.acts && !hasWaiting c.m.t c.veh newJobs then
+        if delta 2 != cost.getD 2 0 then exactCostNoWait := false
+  return [("model", Json.null),
+          ("oracle", Json.mkObj [("unassigned_exact", Json.bool exactUnassigned), ("tours_exact", Json.bool exactTours),
+                                 ("distance_exact", Json.bool exactDistance), ("cost_exact_without_waiting", Json.bool exactCostNoWait),
+                                 ("value_exact", Json.bool exactValue),
+                                 ("fitness_is_function_of_tours", Json.bool fitnessIsFunctionOfTours)]),
+          ("info", Json.mkObj [("value_rows", jNat valueRows), ("multi", Json.bool true)])]
+
 /-- impl per position: null | {cost:[..], place, tw, before:[..], after:[..]} -/
 def handle (j : Json) : R (List (String × Json)) := do
+  if (fldD j "k" Json.null) == Json.str "multi" then return ← handleMulti j
   let c ← parseCtx j
   let dims := c.cap.length
   let job ← parseJob dims (← fld j "job")
